@@ -5,6 +5,7 @@ import procoracle as po
 
 FAMILIES = ['process']
 BRIDGES = ['br_proc_', 'br_nonideal_']
+LINT = True          # loop-shape lint of the four step loops (tracer/looplint.py)
 PROPS_V = 'Props/C11.v'
 EXTRA_TARGETS = ['Model/NumCheck.vo']
 BUDGET = {'quick': 100, 'thorough': 3000}
